@@ -35,7 +35,7 @@ package rfc4757
 //@   pure
 //@   trusted_frame returned slices are not tracked as fresh; in-place append into spare capacity cannot be excluded
 //@   requires tagof(e) == typeid("crypto.RC4HMAC")
-//@   ensures err == nil ==> len(lastRandom) == 8 && bytes(ct) == enc_4757(bytes(key), usage, seqcat(lastRandom, bytes(data)))
+//@   ensures err == nil ==> len(lastRandom) == 8 && bytes(ct) == enc_4757(old(bytes(key)), usage, seqcat(lastRandom, old(bytes(data))))
 //@ func crypto/rfc4757.deriveKeys(key, checksum, usage, export) (k1, k2, k3)
 //@   pure
 //@   trusted_frame returned slices are not tracked as fresh
